@@ -61,6 +61,11 @@ pub const FAULTS: &[(&str, &str, bool)] = &[
     ("listen_to_nothing", "listen to", false),
     ("rock_without_target", "rock", false),
     ("roll_into_nothing", "roll x into", false),
+    ("rock_like_without_literal", "rock x like", false),
+    ("rock_with_nothing", "rock x with", false),
+    ("cast_into_nothing", "cast x into", false),
+    ("join_with_nothing", "join x with", false),
+    ("function_call_statement_without_arguments", "x taking 1,", false),
     ("cut_without_operand", "cut", false),
     ("call_without_arguments", "x taking", false),
     ("function_without_parameters", "x takes", false),
